@@ -13,9 +13,9 @@ def thr_sources(work, with_lib=True):
     return src + [os.path.join(VERIF, 'model', 'vssref.c'), os.path.join(VERIF, 'mon', 'thrmon.c')]
 
 
-def build_shared_libs(work):
-    d = work.path('cmake')
-    rc, so, se = vlib.run(['cmake', '-S', vlib.REPO, '-B', d, '-G', 'Ninja', '-DCMAKE_BUILD_TYPE=RelWithDebInfo', '-DCMAKE_C_FLAGS=-Wno-error'], timeout=600)
+def build_shared_libs(work, build_type='RelWithDebInfo'):
+    d = work.path('cmake' if build_type == 'RelWithDebInfo' else 'cmake_' + build_type)
+    rc, so, se = vlib.run(['cmake', '-S', vlib.REPO, '-B', d, '-G', 'Ninja', '-DCMAKE_BUILD_TYPE=' + build_type, '-DCMAKE_C_FLAGS=-Wno-error'], timeout=600)
     if rc != 0:
         raise vlib.HarnessError('cmake configure failed: ' + se[-1500:])
     rc, so, se = vlib.run(['cmake', '--build', d, '--target', 'open1722', 'open1722custom'], timeout=900)
@@ -45,13 +45,19 @@ def c16(tier, seed):
     try:
         obs = vlib.Obs()
         tsan = vlib.compile_many(work, 'thrmon_tsan', thr_sources(work), ['-O1', '-g', '-fno-omit-frame-pointer', '-fsanitize=thread'], link_flags=['-lpthread'])
+        # an unoptimised build keeps objects (scratch variables, write-only statics) that -O1 deletes
+        tsan0 = vlib.compile_many(work, 'thrmon_tsan_O0', thr_sources(work), ['-O0', '-g', '-fno-omit-frame-pointer', '-fsanitize=thread'], link_flags=['-lpthread'])
         libdir = build_shared_libs(work)
+        libdir_dbg = build_shared_libs(work, 'Debug')
         img = vlib.compile_many(work, 'thrmon_image', thr_sources(work, with_lib=False), ['-O1', '-g'],
                                 link_flags=['-L' + libdir, '-lopen1722', '-lopen1722custom', '-Wl,-rpath,' + libdir, '-lpthread'])
         E = 12 if tier == 'quick' else 600
         jobs = []
         for i, T in enumerate([2, 4, 8, 16] * (1 if tier == 'quick' else 4)):
             jobs.append((tsan, dict(VP_THREADS=T, VP_EPISODES=E, VP_OPS=1500, VP_SEED=int(seed) * 100 + i, VP_NOISE=6 if i % 2 == 0 else 40), 'tsan'))
+        for i, T in enumerate([4, 16] * (1 if tier == 'quick' else 3)):
+            jobs.append((tsan0, dict(VP_THREADS=T, VP_EPISODES=max(4, E // 3), VP_OPS=1500, VP_SEED=int(seed) * 100 + 50 + i, VP_NOISE=6 if i % 2 == 0 else 40), 'tsan'))
+        ntsan = len(jobs)
         jobs.append((img, dict(VP_THREADS=8, VP_EPISODES=E, VP_OPS=1500, VP_SEED=seed, VP_IMAGE=1, LD_BIND_NOW=1), 'image'))
         jobs.append((img, dict(VP_THREADS=16, VP_EPISODES=E, VP_OPS=800, VP_SEED=int(seed) + 7, VP_IMAGE=1, LD_BIND_NOW=1, VP_NOISE=40), 'image'))
         tsan_env = {'TSAN_OPTIONS': 'halt_on_error=0:second_deadlock_stack=1:report_signal_unsafe=0:exitcode=0'}
@@ -89,22 +95,28 @@ def c16(tier, seed):
                 else:
                     obs.add_viol('TSan:%s:%s:%s' % (kind, fr[1], fr[0]), dict(report=text, threads=env.get('VP_THREADS')))
         syms = writable_symbols(libdir)
-        extra_syms = [s for s in syms if not any(s[2] == a or s[2].startswith(a) for a in CRT_WRITABLE)]
-        for lib, sec, name, size in extra_syms:
-            obs.add_viol('writable-global:%s:%s:%s' % (lib, sec, name), dict(size=size, note='object in a writable section of the shipped library'))
+        syms_dbg = writable_symbols(libdir_dbg)
+        for label, ss in (('', syms), ('[Debug-build]', syms_dbg)):
+            for lib, sec, name, size in ss:
+                if any(name == a or name.startswith(a) for a in CRT_WRITABLE):
+                    continue
+                if label and any(x[2] == name and x[0] == lib for x in syms):
+                    continue
+                obs.add_viol('writable-global:%s:%s:%s%s' % (lib, sec, name, label), dict(size=size, note='object in a writable section of the shipped library'))
+        syms = syms + [('Debug:' + a, b, c2, d) for a, b, c2, d in syms_dbg]
         obs.stat('evals', len(syms) + 1)
         cov = dict(distinct_nontrivial=int(obs.stats.get('thr.distinct_interleavings', 0)),
                    episodes=int(obs.stats.get('thr.episodes', 0)), shared_read_events=int(obs.stats.get('thr.shared_reads', 0)),
                    tsan_reports=nraces, transcript_mismatches=int(obs.stats.get('thr.transcript_mismatches', 0)),
                    writable_image_bytes=int(obs.stats.get('img.writable_bytes', 0)),
                    writable_symbols=['%s %s %s (%d bytes)' % s for s in syms],
-                   rule='ThreadSanitizer build: %d runs with 2/4/8/16 threads x %d episodes x 1500 calls per thread (field get/set/init '
+                   rule='ThreadSanitizer builds (-O1 and -O0): %d runs with 2/4/8/16 threads x %d episodes x 1500 calls per thread (field get/set/init '
                         'over all formats, CAN builders, VSS encode/decode on private arenas with model oracles; concurrent read-only '
                         'getters/decoders on a pool of 64 shared PDUs), scheduling noise (sched_yield / nanosleep) between calls; each '
                         'thread transcript must equal the same script run alone.  Real libopen1722.so/libopen1722custom.so (CMake, as '
                         'shipped): writable PT_LOAD segments minus RELRO hashed before the first library call and after the single- and '
-                        'multi-threaded workloads; objects in .data/.bss other than C-runtime bookkeeping are listed.  distinct_nontrivial '
-                        '= distinct interleavings observed (hash of the thread-id sequence in ticket order).' % (len(jobs) - 2, E))
+                        'multi-threaded workloads; objects in .data/.bss other than C-runtime bookkeeping are listed (RelWithDebInfo and Debug builds).  distinct_nontrivial '
+                        '= distinct interleavings observed (hash of the thread-id sequence in ticket order).' % (ntsan, E))
         return vlib.finish('C16', 'exploration', tier, seed, obs, cov, [
             'ThreadSanitizer observes only the interleavings that executed; the structural part of the claim rests on the writable-image observation',
             'tickets come from a relaxed atomic counter and add no happens-before edge',
